@@ -393,6 +393,17 @@ def main(argv=None):
         except Exception as e:
             total.harness.append({'case': None, 'tb': ''.join(
                 traceback.format_exception(type(e), e, e.__traceback__))[-3000:]})
+    # 4. optional coverage-guided engine: libFuzzer (atheris) campaigns over the same strategy and oracle (vlib/fuzz.py)
+    fz = getattr(mod, 'FUZZ', {}).get(tier)
+    if fz and not a.n:
+        try:
+            from vlib import fuzz
+            sub = Agg()
+            fuzz.campaign(mod, pid, tier, seed, sub, safe_run_case, int(os.environ.get('VERIF_FUZZ_S', fz[0])), fz[1])
+            total.merge(sub)
+        except Exception as e:
+            total.harness.append({'case': None, 'tb': ''.join(
+                traceback.format_exception(type(e), e, e.__traceback__))[-3000:]})
     notes['budget_cases'] = budget
     notes['shards'] = njobs
     notes['worker_processes'] = nshards
